@@ -115,11 +115,13 @@ namespace XotModel
 /-- Wrapping a well-formed spelling in one unprefixed element without attributes `<w>…</w>` gives a
     well-formed spelling. -/
 theorem wellNsDoc_wrap {sns : List NSNode} (hw : WellNsDoc sns) (w : StrSpan) (pstart : Nat) (junk openSp : StrSpan)
-    (cw : StrSpan) (cpstart : Nat) (closeSp : StrSpan) (hcw : cw.text = w.text) :
+    (cw : StrSpan) (cpstart : Nat) (closeSp : StrSpan) (hcw : cw.text = w.text)
+    (hps : pstart = 0) (hcps : cpstart = 0) :
     WellNsDoc [NSNode.elem ⟨[], pstart⟩ w junk [] openSp sns ⟨[], cpstart⟩ cw closeSp] := by
+  subst hps hcps
   refine ⟨⟨⟨⟨fun a ha => by simp at ha, fun d hd => by simp [declsOf] at hd, List.nodup_nil, List.nodup_nil,
-      fun a ha => by simp [ordinary] at ha⟩,
-    rfl, rfl, hcw, hw.2.1, hw.1⟩, trivial⟩, rfl, ?_⟩
+      fun a ha => by simp [ordinary] at ha, fun a ha => by simp at ha⟩,
+    rfl, rfl, hcw, hw.2.1, hw.1, rfl, rfl⟩, trivial⟩, rfl, ?_⟩
   have := hw.2.2
   simpa [NSNode.denote.denoteList, NSNode.denote, NPNode.ids.idsList, NPNode.ids, attrIds, attrsOf, ordinary,
     declsOf, Scope.push] using this
